@@ -603,7 +603,7 @@ func (o *Obligation) discharge(p *Prelude, tmpdir string, timeoutS int) {
 		if o.Status == "proved" {
 			return
 		}
-		groundTimedOut = strings.Contains(o.Output, ": timeout")
+		groundTimedOut = strings.Contains(o.Output, ": timeout") && o.SMTSize > 1<<20
 		notes = append(notes, "[ground attempt] "+o.Output)
 		secs += o.Seconds
 		o.Status, o.Output, o.Model = "", "", nil
@@ -618,11 +618,12 @@ func (o *Obligation) discharge(p *Prelude, tmpdir string, timeoutS int) {
 	o.Status, o.Output, o.Model = "", "", nil
 	o.dischargeOnce(p, tmpdir, timeoutS, "full")
 	o.Seconds += secs
-	if o.Status == "unknown" && groundTimedOut && atomic.AddInt32(&heavyRetries, 1) <= 6 {
+	if o.Status == "unknown" && groundTimedOut && atomic.AddInt32(&heavyRetries, 1) <= 3 {
 		// Every encoding ran out of time and the ground VC (the one that normally decides loop-heavy
 		// obligations) was cut off by its short wall-clock limit - which under a fully loaded machine
 		// is a scheduling accident, not a verdict. Retry it, one at a time, with a generous limit.
-		// (At most six such retries per run, so a change that breaks many obligations is not slowed.)
+		// (Only for ground VCs above 1 MB and at most three per run, so a change that breaks many
+		// obligations is not slowed much.)
 		full := o.Output
 		secs = o.Seconds
 		heavyMu.Lock()
